@@ -134,9 +134,10 @@ PROPS = {
         "rule": ARITH_RULE + "conversions Int Int64 Uint64 Rat IsInt MinPrec Sign and setters SetInt SetInt64 SetUint64 SetRat NewDecimal; non-trivial = truncation happened, value within the 2^63/2^64/10^19 edge band, or a big-integer/rational setter",
     },
     "C15": {
-        "gens": [{"name": "C15", "quick": 2500, "thorough": 12000}],
-        "nontrivial": {"inexact", "subnormal", "near-tie", "near-representable", "exact-fit", "setfloat", "float", "nan"},
-        "rule": ARITH_RULE + "SetFloat64 on float64 bit patterns (normals, subnormals, extremes, powers of ten and neighbours, NaN) compared with the model and with 'exact when it fits / within 1 ulp of the correctly rounded value'; Float64/Float32 on exact float64 values, exact midpoints and values perturbed in the 20th-320th digit, compared with the nearest binary value computed in Lean with rationals (ties to even, subnormals, overflow); SetFloat/Float with big.Float of 1-2000 bits within 64 ulps and exact when representable",
+        "gens": [{"name": "C15", "quick": 2500, "thorough": 12000},
+                 {"name": "floatmin", "quick": 3, "thorough": 14, "single_shard": True}],
+        "nontrivial": {"inexact", "subnormal", "near-tie", "near-representable", "exact-fit", "setfloat", "float", "nan", "min-exponent"},
+        "rule": ARITH_RULE + "SetFloat64 on float64 bit patterns (normals, subnormals, extremes, powers of ten and neighbours, NaN) compared with the model and with 'exact when it fits / within 1 ulp of the correctly rounded value'; Float64/Float32 on exact float64 values, exact midpoints and values perturbed in the 20th-320th digit, compared with the nearest binary value computed in Lean with rationals (ties to even, subnormals, overflow); SetFloat/Float with big.Float of 1-2000 bits within 64 ulps and exact when representable; 53-bit integers (the binade where SetFloat64 needs no scaling) at small precisions; SetFloat at the smallest big.Float exponents (2^-2147483648, two-step scaling) checked by integer cross-multiplication",
     },
     "C17": {
         "gens": [{"name": "C17", "quick": 2500, "thorough": 12000}],
